@@ -474,15 +474,6 @@ theorem verify_ok_amount {p : Payment} {a : Attempt} (h : verifyAttempt p a = .o
 
 /-! ### backend equivalence -/
 
-/-- The caller contract under which the two backends are meant to agree: a registration uses an
-    attempt id that no stored attempt (of any payment) has, and Settle/FailAttempt name an id
-    that is not an attempt of a different payment. -/
-def opOk (s : Store) : Op → Bool
-  | .reg _ a => s.rows.all (fun r => r.a.id != a.id)
-  | .settle h id => s.rows.all (fun r => r.a.id != id || r.owner == h)
-  | .failAtt h id => s.rows.all (fun r => r.a.id != id || r.owner == h)
-  | _ => true
-
 /-- every operation of the list respects the contract in the state it is issued in. -/
 def respects (s : Store) : List Op → Bool
   | [] => true
@@ -604,5 +595,140 @@ theorem resolve_equiv (s : Store) (h id : Nat) (st : AState)
           rw [mapRows_resolve_eq s h id st hall]
           simp
     | _ => simp
+
+/-! ### ghost ledger = stored rows (SQL always; KV under per-payment id freshness) -/
+
+theorem resolve_rows (b : Backend) (s : Store) (h id : Nat) (st : AState) :
+    (resolve b s h id st).1.rows =
+      if (resolve b s h id st).2.1 == .ok then resolveRows b h id st s.rows else s.rows := by
+  unfold resolve
+  cases hp : s.payment? h with
+  | none => rfl
+  | some p =>
+    simp only
+    cases hu : updatable p.status with
+    | ok =>
+      simp only
+      cases b with
+      | kv =>
+        simp only
+        cases hf : p.attempts.find? (fun x => x.id == id) with
+        | none => rfl
+        | some x =>
+          obtain ⟨xid, xamt, xfee, xshape, xst⟩ := x
+          cases xst <;> rfl
+      | sql =>
+        simp only
+        cases hf : s.rows.find? (fun r => r.a.id == id) with
+        | none => rfl
+        | some r =>
+          simp only
+          split <;> rfl
+    | _ => rfl
+
+/-- one step keeps "ledger = stored rows", for the KV store provided the registered id is new
+    for the payment. -/
+theorem gstep_ledger (b : Backend) (s : Store) (op : Op)
+    (hfresh : b = .kv → regFresh s op = true) :
+    (gstep b (s, s.rows) op).2 = (gstep b (s, s.rows) op).1.rows := by
+  simp only [gstep]
+  cases op with
+  | init h v =>
+    simp only [step]
+    cases hg : initGate s h <;> rfl
+  | reg h a0 =>
+    simp only [step]
+    cases hp : s.payment? h with
+    | none => cases b <;> rfl
+    | some p =>
+      simp only
+      cases hr : p.registrable with
+      | ok =>
+        simp only
+        cases hv : verifyAttempt p { a0 with st := .inflight } with
+        | ok =>
+          simp only
+          cases b with
+          | kv =>
+            obtain ⟨i, hi, hpe⟩ := payment?_some_inv hp
+            have hpa : p.attempts = s.attemptsOf h := by rw [hpe]; rfl
+            have hf := hfresh rfl
+            simp only [regFresh, Bool.not_eq_true'] at hf
+            have hf' : p.attempts.any (fun x => x.id == ({ a0 with st := AState.inflight } : Attempt).id) = false := by
+              rw [hpa]; exact hf
+            simp only [hf']
+            rfl
+          | sql =>
+            simp only
+            split <;> rfl
+        | _ => rfl
+      | _ => rfl
+  | settle h id =>
+    simp only [step, ledgerStep, resolve_rows]
+    by_cases hc : ((resolve b s h id AState.settled).2.1 == Err.ok) = true
+    · simp [hc]
+    · have hc' : ((resolve b s h id AState.settled).2.1 == Err.ok) = false := by simpa using hc
+      simp [hc']
+  | failAtt h id =>
+    simp only [step, ledgerStep, resolve_rows]
+    by_cases hc : ((resolve b s h id AState.failed).2.1 == Err.ok) = true
+    · simp [hc]
+    · have hc' : ((resolve b s h id AState.failed).2.1 == Err.ok) = false := by simpa using hc
+      simp [hc']
+  | fail h r =>
+    simp only [step]
+    cases hi : s.info h <;> rfl
+  | del h =>
+    simp only [step]
+    cases hp : s.payment? h with
+    | none => cases b <;> rfl
+    | some p =>
+      simp only
+      cases hr : removable p.status <;> rfl
+  | delFailed h =>
+    simp only [step]
+    cases hp : s.payment? h with
+    | none => cases b <;> rfl
+    | some p =>
+      simp only
+      cases hr : removable p.status <;> rfl
+  | fetch h =>
+    simp only [step]
+    cases hp : s.payment? h <;> rfl
+
+theorem gstep_fst (b : Backend) (g : GState) (op : Op) : (gstep b g op).1 = (step b g.1 op).1 := rfl
+
+theorem gexec_cons (b : Backend) (g : GState) (op : Op) (ops : List Op) :
+    gexec b g (op :: ops) = gexec b (gstep b g op) ops := rfl
+
+theorem gexec_fst (b : Backend) (g : GState) (ops : List Op) :
+    (gexec b g ops).1 = exec b g.1 ops := by
+  induction ops generalizing g with
+  | nil => rfl
+  | cons op ops ih => rw [gexec_cons, ih]; rfl
+
+/-- along a run: ledger = stored rows, for SQL unconditionally, for KV under `freshRun`. -/
+theorem gexec_ledger (b : Backend) (ops : List Op) (s : Store)
+    (hfresh : b = .kv → freshRun b s ops = true) :
+    (gexec b (s, s.rows) ops).2 = (gexec b (s, s.rows) ops).1.rows := by
+  induction ops generalizing s with
+  | nil => rfl
+  | cons op ops ih =>
+    rw [gexec_cons]
+    have h1 := gstep_ledger b s op (fun hb => by
+      have := hfresh hb
+      simp only [freshRun, Bool.and_eq_true] at this
+      exact this.1)
+    have h2 : gstep b (s, s.rows) op = ((step b s op).1, (step b s op).1.rows) := by
+      apply Prod.ext
+      · rfl
+      · rw [h1]; rfl
+    rw [h2]
+    exact ih _ (fun hb => by
+      have := hfresh hb
+      simp only [freshRun, Bool.and_eq_true] at this
+      exact this.2)
+
+theorem admittedSent_rows (s : Store) (h : Nat) : admittedSent s.rows h = sentL (s.attemptsOf h) := rfl
 
 end LndModel.C16
